@@ -1,6 +1,14 @@
 """C11 — component status events follow the documented state machine."""
 import os
+import re
+import time
 import vlib
+
+# prop_code of C11/Harness.v -> the violated clause (kind of the reported failing input)
+CLAUSES = {1: "clause-does-not-begin-with-starting", 2: "clause-repeats-current-status",
+           3: "clause-leaves-permanent-error-not-to-stopping", 4: "clause-event-after-final-status",
+           5: "clause-starting-again", 6: "clause-edge-not-in-diagram", 7: "clause-observation-does-not-decode",
+           8: "clause-shared-instances-end-in-different-status", 9: "instance-id-misses-pipeline"}
 
 
 class P(vlib.Prop):
@@ -13,26 +21,19 @@ class P(vlib.Prop):
     harness_module = "C11.Harness"
     case_type = "nat * (list (nat * Z) * list (nat * Z))"
     shard = 60
+    # One `go test` per PACKAGE (each costs a compile + link): the tests named in NOTES.md as harnesses "status", "conc",
+    # "shared", "sharedconc", "sharedrace", "repair", "graph", "instances", "extensions" are the Test functions below.
+    _SC_FILES = {"zz_verif_c11_test.go": "C11/shared_test.go", "zz_verif_c11race_test.go": "C11/sharedrace_test.go",
+                 "zz_verif_c11repair_test.go": "C11/repair_test.go"}
     harnesses = [
-        vlib.Harness("status", "service", "./internal/status/", {"zz_verif_c11_test.go": "C11/status_test.go"},
-                     "^TestVerifC11$", "status"),
-        vlib.Harness("conc", "service", "./internal/status/",
+        vlib.Harness("status", "service", "./internal/status/",
                      {"zz_verif_c11_test.go": "C11/status_test.go", "zz_verif_c11conc_test.go": "C11/conc_test.go"},
-                     "^TestVerifC11Conc$", "status"),
-        vlib.Harness("shared", "internal/sharedcomponent", ".", {"zz_verif_c11_test.go": "C11/shared_test.go"},
-                     "^TestVerifC11Shared$", "sharedcomponent"),
-        vlib.Harness("sharedconc", "internal/sharedcomponent", ".", {"zz_verif_c11_test.go": "C11/shared_test.go"},
-                     "^TestVerifC11SharedConc$", "sharedcomponent"),
-        vlib.Harness("sharedrace", "internal/sharedcomponent", ".",
-                     {"zz_verif_c11_test.go": "C11/shared_test.go", "zz_verif_c11race_test.go": "C11/sharedrace_test.go"},
-                     "^TestVerifC11SharedRace$", "sharedcomponent"),
-        vlib.Harness("repair", "internal/sharedcomponent", ".",
-                     {"zz_verif_c11_test.go": "C11/shared_test.go", "zz_verif_c11repair_test.go": "C11/repair_test.go"},
-                     "^TestVerifC11Repair$", "sharedcomponent"),
-        vlib.Harness("graph", "service", "./internal/graph/", {"zz_verif_c11_test.go": "C11/graph_test.go"},
-                     "^TestVerifC11Graph$", "graph"),
-        vlib.Harness("instances", "service", "./internal/graph/", {"zz_verif_c11inst_test.go": "C11/instances_test.go"},
-                     "^TestVerifC11Instances$", "graph"),
+                     "^TestVerifC11(Conc)?$", "status"),
+        vlib.Harness("sharedcomponent", "internal/sharedcomponent", ".", _SC_FILES,
+                     "^TestVerifC11(Shared|SharedConc|SharedRace|Repair)$", "sharedcomponent"),
+        vlib.Harness("graph", "service", "./internal/graph/",
+                     {"zz_verif_c11_test.go": "C11/graph_test.go", "zz_verif_c11inst_test.go": "C11/instances_test.go"},
+                     "^TestVerifC11(Graph|Instances)$", "graph"),
         vlib.Harness("extensions", "service", "./extensions/", {"zz_verif_c11_test.go": "C11/ext_test.go"},
                      "^TestVerifC11Ext$", "extensions"),
     ]
@@ -63,6 +64,11 @@ class P(vlib.Prop):
             "components that report during Start, at run time and during Shutdown and may fail (lifecycle scripts, "
             "the automatic-OK clause, the attribution of a report to the reporting instance and the delivery of every accepted event to "
             "every status-watcher extension (started or not) checked directly). "
+            "Round 5: the 64 edge histories first; random scripts with error events (changing / wrapped causes), identical-content "
+            "InstanceIDs, events created in reverse order; start/stop errors plain / Canceled / wrapped / DeadlineExceeded; failing wrapped "
+            "Start/Shutdown of the shared component; 4 signals incl. profiles; the graph harness delivers through graph.Host."
+            "NotifyComponentStatusChange to a real watcher extension. After the correspondence pass the clause checker prop_code is "
+            "evaluated in Coq over the observed behaviour of every case. "
             "A case is non-trivial when at least one event is delivered (status) / a second instance attaches (shared); "
             "distinct = distinct case terms.")
     trusted_base = [
@@ -91,9 +97,7 @@ class P(vlib.Prop):
         # ring.New(5) sits in a closure of a generic method (outside T1's subset): the length of the ring is read
         # from a component started by the CURRENT code (overlay honoured) and written to Generated/C11Ring.v;
         # obligation ring_cap_is_code (C11/ProofsTie.v) ties Model.ring_cap to it.
-        h = vlib.Harness("ringlen", "internal/sharedcomponent", ".",
-                         {"zz_verif_c11_test.go": "C11/shared_test.go", "zz_verif_c11repair_test.go": "C11/repair_test.go"},
-                         "^TestVerifC11RingLen$", "sharedcomponent")
+        h = vlib.Harness("ringlen", "internal/sharedcomponent", ".", self._SC_FILES, "^TestVerifC11RingLen$", "sharedcomponent")
         cases, oracle, stats, err = vlib.run_harness(ctx, h)
         ctx.harness_runs.pop()          # a table dump, not a correspondence run
         if err or "ring_len" not in stats:
@@ -105,3 +109,71 @@ class P(vlib.Prop):
         outv = os.path.join(vlib.COQ, "Generated", "C11Ring.v")
         if not os.path.exists(outv) or open(outv).read() != src:
             open(outv, "w").write(src)
+
+    # ---- failing-input search (round 5): the decidable clause checker prop_code (C11/Harness.v, proved equivalent to the
+    # Prop-level clauses in C11/ProofsPropOk.v) is evaluated over the OBSERVED behaviour of EVERY case of the run, in one
+    # coqc process that loads the case shards compiled by the correspondence pass.  A case that violates a clause is a
+    # failing input whatever the model says about it (so a broken obligation / a disagreement gets a concrete replay);
+    # a disagreement that violates no clause stays `no-failing-input-found`.
+    def extra_checks(self, ctx):
+        if not ctx.cases:
+            return
+        nsh = (len(ctx.cases) + self.shard - 1) // self.shard
+        vos = [os.path.join(ctx.work, "Cases_%d.vo" % k) for k in range(nsh)]
+        if not all(os.path.exists(v) and os.path.getmtime(v) >= ctx.t0 - 1 for v in vos):
+            ctx.notes.append("clause checker not run: case shards of this run are not available")
+            return
+        vf = os.path.join(ctx.work, "PropOkAll.v")
+        with open(vf, "w") as f:
+            f.write("From Verif Require Import Common.Base C11.Harness.\n")
+            for k in range(nsh):
+                f.write("Require Cases_%d.\n" % k)
+            f.write("Definition R := Eval vm_compute in (filter (fun x => negb (Nat.eqb (snd x) 0)) "
+                    "(map (fun c => (fst c, prop_code (snd c))) (%s))).\n" % " ++ ".join("Cases_%d.cases" % k for k in range(nsh)))
+            f.write('Goal True. idtac "@@BEGIN". Abort.\nPrint R.\nGoal True. idtac "@@END". Abort.\n')
+            f.write("Definition T := Eval vm_compute in table_diff.\n")
+            f.write('Goal True. idtac "@@TB". Abort.\nPrint T.\nGoal True. idtac "@@TE". Abort.\n')
+        t0 = time.time()
+        rc, out = vlib.run(["coqc", "-Q", vlib.COQ, "Verif", "-Q", ctx.work, "", "-w", "-all", vf], cwd=ctx.work, timeout=600)
+        ctx.coq_eval_s += time.time() - t0
+        m = re.search(r"@@BEGIN\s*(.*?)@@END", out, re.S)
+        if rc != 0 or not m:
+            raise vlib.Broken("clause checker prop_code does not evaluate over the observed cases", out[-3000:])
+        body = m.group(1).split(": list")[0]
+        bad = [(int(a), int(b)) for a, b in re.findall(r"\((\d+),\s*(\d+)\)", body)]
+        ctx.stats["clause_checker.cases_checked"] = len(ctx.cases)
+        ctx.stats["clause_checker.cases_violating_a_clause"] = len(bad)
+        already = {o["term"] for o in ctx.oracle}
+        for idx, code in bad:
+            c = ctx.cases[idx]
+            term = c["term"]
+            if term in already:
+                continue            # the Go direct oracle has reported this very input
+            kind = CLAUSES.get(code, "clause-%d" % code)
+            detail = "clause checker prop_code = %d over the observed behaviour (Coq, independent of the model's step functions)" % code
+            if code == 8 and term.startswith("(1,"):
+                # same signature as the Go oracle, so that known finding S3 (>= 6 reports before the late attach) is recognised
+                ops = re.findall(r"\((\d+), (\d+)%Z\)", term.split("], [")[0])
+                n, seen_first = 0, False
+                for a, b in ops:
+                    if a == "0":
+                        if seen_first:
+                            break
+                        seen_first = True
+                    else:
+                        n += 1
+                kind = "shared-late-instance-misses-status"
+                detail = "reports_before_first_late_attach=%d %s" % (n, detail)
+            ctx.oracle.append({"kind": kind, "term": term, "detail": detail, "harness": c["harness"]})
+        # (2) a translated table that differs from the documented diagram: name the arguments and the history that uses them
+        mt = re.search(r"@@TB\s*(.*?)@@TE", out, re.S)
+        diffs = re.findall(r"\((\d+)%?Z?,\s*(\d+)%?Z?\)", mt.group(1).split(": list")[0]) if mt else []
+        ctx.stats["clause_checker.table_entries_differing_from_diagram"] = len(diffs)
+        for a, b in diffs:
+            hist = {0: [], 1: [1], 2: [1, 2], 3: [1, 3], 4: [1, 4], 5: [1, 5], 6: [1, 6], 7: [1, 6, 7]}[int(a)] + [int(b)]
+            script = "[" + "; ".join("(0, %d%%Z)" % x for x in hist) + "]"
+            hit = [c for c in ctx.cases if c["term"].startswith("(0, (%s," % script)]
+            msg = ("translated table differs from the documented diagram at (%s -> %s); history %s on the implementation: %s"
+                   % (a, b, hist, hit[0]["term"] if hit else "not run"))
+            ctx.notes.append(msg)
+            ctx.broken.append((msg, ""))
